@@ -90,7 +90,8 @@ def run_harnesses(unit, scratch, harnesses, jobs=8, log=None, extra_flags=()):
         r["time_s"] = res.get("duration_ms", 0) / 1000.0
         st = stats.get(hid, {})
         r["solver_s"] = st.get("runtime_decision_procedure_s", 0.0) or 0.0
-        failed = [c for c in checks if c.get("status") in ("Failure", "Undetermined")]
+        failed = [c for c in checks if c.get("status") == "Failure"]
+        undet = [c for c in checks if c.get("status") == "Undetermined"]
         covers = [c for c in checks if c.get("category") == "cover" or c.get("status") in ("Satisfied", "Unsatisfiable")]
         r["covers_total"] = len(covers)
         r["covers_satisfied"] = len([c for c in covers if c.get("status") == "Satisfied"])
@@ -115,6 +116,9 @@ def run_harnesses(unit, scratch, harnesses, jobs=8, log=None, extra_flags=()):
             if not checks:
                 r["status"] = "undecided"
                 r["reason"] = "harness did not complete (timeout / out of memory / CBMC error)"
+            elif not failed and undet:
+                r["status"] = "undecided"
+                r["reason"] = "checks undetermined: " + " | ".join((c.get("description") or "") for c in undet)[:300]
             elif real:
                 r["status"] = "failed"
                 r["reason"] = descs[:600]
@@ -160,7 +164,8 @@ def playback(unit, scratch, harness, log=None, timeout=600):
     for fe in unit["files"]:
         p = os.path.join(scratch, fe["file"])
         s = open(p).read()
-        m2 = re.search(r"#\[test\]\s*fn (kani_concrete_playback_\w+)\(\) \{.*?\n\}", s, re.S)
+        hfn = harness["name"].split("::")[-1]
+        m2 = re.search(r"#\[test\]\s*fn (kani_concrete_playback_" + re.escape(hfn) + r"_\d+)\(\) \{.*?\n\s*\}", s, re.S)
         if m2:
             test_src = m2.group(0)
             test_name = m2.group(1)
